@@ -1,1 +1,372 @@
-/-! Property theorems for C11 (stub: not built yet). -/
+import UsualProofs.C11.Scalar
+import UsualProofs.C11.Frame
+/-!
+# Property C11 — the UTF-8 codec accepts exactly well-formed UTF-8 and round-trips every scalar
+
+All statements are about the model `Usual.C11` (`lean/Usual/C11/Utf8.lean`); the bridge lemmas
+`UsualProofs.Bridge.C11.bridge_*` transport them to the definitions regenerated from
+`usual/utf8.c` on every run (`Usual.Gen.C11`), and `harness/C11/h.c` compares the model with the
+compiled code on every byte window / code point.
+
+Conventions: `rd i` is the byte at offset `i` from the source pointer, `avail` the number of
+bytes before the end pointer (`avail ≥ 1` is the callers' obligation: both readers look at
+`p[0]` unconditionally), `window rd n = [rd 0, …, rd (n-1)]`, `WF` = one row of Unicode
+Table 3-7, `decode` = its code point, `room` = bytes before the destination end pointer.
+C `int`/`unsigned` are `BitVec 32`; `x.toInt` is the value of a C `int`.
+
+Everything here is kernel-checked with the three standard axioms only (no `bv_decide`).
+-/
+namespace UsualProps.C11
+open Usual.C11 UsualProofs.C11
+
+/-! ## utf8_validate_seq -/
+
+/-- The validator returns 1/2/3/4 exactly on the matching row of Table 3-7 lying completely
+before `end` (and not NUL for length 1); it returns nothing but 0..4. -/
+theorem validateSeq_spec (rd : Nat → B) (avail : Nat) :
+    (validateSeq rd avail = 1#32 ↔ wf1 (rd 0) ∧ rd 0 ≠ 0#8) ∧
+    (validateSeq rd avail = 2#32 ↔ 2 ≤ avail ∧ wf2 (rd 0) (rd 1)) ∧
+    (validateSeq rd avail = 3#32 ↔ 3 ≤ avail ∧ wf3 (rd 0) (rd 1) (rd 2)) ∧
+    (validateSeq rd avail = 4#32 ↔ 4 ≤ avail ∧ wf4 (rd 0) (rd 1) (rd 2) (rd 3)) ∧
+    (validateSeq rd avail = 0#32 ∨ validateSeq rd avail = 1#32 ∨ validateSeq rd avail = 2#32 ∨
+      validateSeq rd avail = 3#32 ∨ validateSeq rd avail = 4#32) :=
+  ⟨vs1 _ _ _ _ _, vs2 _ _ _ _ _, vs3 _ _ _ _ _, vs4 _ _ _ _ _, vs_range _ _ _ _ _⟩
+
+example : validateSeq (rdOf [0xED#8, 0x9F#8, 0xBF#8]) 3 = 3#32 :=
+  ((validateSeq_spec _ 3).2.2.1).mpr (by decide)
+example : validateSeq (rdOf [0xED#8, 0xA0#8, 0x80#8]) 3 ≠ 3#32 :=           -- surrogate D800
+  fun h => absurd (((validateSeq_spec _ 3).2.2.1).mp h) (by decide)
+example : validateSeq (rdOf [0xE2#8, 0x82#8, 0xAC#8]) 2 ≠ 3#32 :=           -- truncated
+  fun h => absurd (((validateSeq_spec _ 2).2.2.1).mp h) (by decide)
+
+/-- List form: the validator returns `n ≠ 0` iff the `n` bytes at the pointer lie before `end`,
+are one well-formed sequence and are not NUL. -/
+theorem validateSeq_accepts_iff (rd : Nat → B) (avail n : Nat) (ha : 1 ≤ avail) (hn : n ≠ 0) :
+    (validateSeq rd avail).toNat = n ↔ n ≤ avail ∧ WF (window rd n) ∧ window rd n ≠ [0#8] :=
+  vs_accepts_iff rd avail n ha hn
+
+example : (validateSeq (rdOf [0xF4#8, 0x8F#8, 0xBF#8, 0xBF#8, 0x41#8]) 5).toNat = 4 :=
+  (validateSeq_accepts_iff _ 5 4 (by decide) (by decide)).mpr (by decide)
+
+/-- … and 0 iff no prefix before `end` is a well-formed non-NUL sequence: overlong forms,
+surrogates, values above U+10FFFF, stray or missing tail bytes, truncation, NUL. -/
+theorem validateSeq_rejects_iff (rd : Nat → B) (avail : Nat) (ha : 1 ≤ avail) :
+    validateSeq rd avail = 0#32 ↔
+      ∀ n, n ≤ avail → ¬ (WF (window rd n) ∧ window rd n ≠ [0#8]) := by
+  constructor
+  · intro h n hn hw
+    have hn0 : n ≠ 0 := by
+      intro e; rw [e] at hw; exact not_WF_nil hw.1
+    have := (vs_accepts_iff rd avail n ha hn0).mpr ⟨hn, hw⟩
+    rw [h] at this
+    exact hn0 this.symm
+  · intro h
+    apply BitVec.eq_of_toNat_eq
+    by_cases hz : (validateSeq rd avail).toNat = 0
+    · rw [hz]; rfl
+    · have := (vs_accepts_iff rd avail _ ha hz).mp rfl
+      exact absurd this.2 (h _ this.1)
+
+example : validateSeq (rdOf [0xC0#8, 0x80#8]) 2 = 0#32 :=                   -- overlong NUL
+  (validateSeq_rejects_iff _ 2 (by decide)).mpr (by
+    intro n hn
+    match n, hn with
+    | 0, _ => decide
+    | 1, _ => decide
+    | 2, _ => decide)
+
+/-! ## utf8_get_char -/
+
+/-- On a well-formed sequence lying before `end` (NUL included) the decoder returns its code
+point and advances by its length. -/
+theorem getChar_wellformed (rd : Nat → B) (avail n : Nat) (hn : n ≤ avail)
+    (h : WF (window rd n)) :
+    getChar rd avail = (BitVec.ofNat 32 (decode (window rd n)), n) := by
+  match n, h with
+  | 0, h => exact absurd h not_WF_nil
+  | 1, h =>
+    rw [window_1] at h ⊢; unfold getChar decode cp1
+    rw [gc1 _ _ _ _ _ h, z_eq]
+  | 2, h =>
+    rw [window_2] at h ⊢; unfold getChar decode
+    rw [gc2 _ _ _ _ _ hn h, dec2_cp _ _ h]
+  | 3, h =>
+    rw [window_3] at h ⊢; unfold getChar decode
+    rw [gc3 _ _ _ _ _ hn h, dec3_cp _ _ _ h]
+  | 4, h =>
+    rw [window_4] at h ⊢; unfold getChar decode
+    rw [gc4 _ _ _ _ _ hn h, dec4_cp _ _ _ _ h]
+  | k + 5, h => have := WF_length h; rw [window_length] at this; omega
+
+example : getChar (rdOf [0xE2#8, 0x82#8, 0xAC#8, 0x21#8]) 4 = (0x20AC#32, 3) :=
+  getChar_wellformed _ 4 3 (by decide) (by decide)
+example : getChar (rdOf [0x00#8]) 1 = (0#32, 1) :=
+  getChar_wellformed _ 1 1 (by decide) (by decide)
+
+/-- On anything else — no prefix before `end` is well-formed: overlong, surrogate, above
+U+10FFFF, bad or missing tail byte, truncated — the decoder consumes exactly one byte and
+returns the negated lead byte. -/
+theorem getChar_illformed (rd : Nat → B) (avail : Nat) (ha : 1 ≤ avail)
+    (h : ∀ n, n ≤ avail → ¬ WF (window rd n)) :
+    getChar rd avail = (-(z (rd 0)), 1) ∧
+    (getChar rd avail).1.toInt = -((rd 0).toNat : Int) ∧ (getChar rd avail).2 = 1 := by
+  have e : getChar rd avail = (-(z (rd 0)), 1) := by
+    unfold getChar
+    apply gcbad
+    · have := h 1 ha; rwa [window_1] at this
+    · intro ⟨a, w⟩; have := h 2 a; rw [window_2] at this; exact this w
+    · intro ⟨a, w⟩; have := h 3 a; rw [window_3] at this; exact this w
+    · intro ⟨a, w⟩; have := h 4 a; rw [window_4] at this; exact this w
+  refine ⟨e, ?_, ?_⟩
+  · rw [e]; exact neg_byte_toInt _
+  · rw [e]
+
+example : (getChar (rdOf [0xED#8, 0xA0#8, 0x80#8]) 3).1.toInt = -0xED ∧
+    (getChar (rdOf [0xED#8, 0xA0#8, 0x80#8]) 3).2 = 1 :=                     -- surrogate D800
+  (getChar_illformed _ 3 (by decide) (by
+    intro n hn
+    match n, hn with
+    | 0, _ => decide
+    | 1, _ => decide
+    | 2, _ => decide
+    | 3, _ => decide)).2
+example : (getChar (rdOf [0xE2#8, 0x82#8]) 2).1.toInt = -0xE2 :=            -- truncated
+  (getChar_illformed _ 2 (by decide) (by
+    intro n hn
+    match n, hn with
+    | 0, _ => decide
+    | 1, _ => decide
+    | 2, _ => decide)).2.1
+
+/-- The decoder accepts (returns a non-negative value) exactly the well-formed sequences lying
+before `end`. -/
+theorem getChar_accepts_iff (rd : Nat → B) (avail : Nat) (ha : 1 ≤ avail) :
+    0 ≤ (getChar rd avail).1.toInt ↔ ∃ n, n ≤ avail ∧ WF (window rd n) := by
+  constructor
+  · intro h
+    apply Classical.byContradiction
+    intro hne
+    have hall : ∀ n, n ≤ avail → ¬ WF (window rd n) := fun n hn hw => hne ⟨n, hn, hw⟩
+    have e := (getChar_illformed rd avail ha hall).2.1
+    have h1 := hall 1 ha
+    rw [window_1] at h1
+    unfold WF wf1 at h1
+    u8nat
+    omega
+  · intro ⟨n, hn, hw⟩
+    rw [getChar_wellformed rd avail n hn hw]
+    have := (decode_WF _ hw).1
+    unfold isScalar at this
+    rw [toInt_ofNat_small _ (by omega)]
+    omega
+
+example : 0 ≤ (getChar (rdOf [0xF0#8, 0x90#8, 0x80#8, 0x80#8]) 4).1.toInt :=
+  (getChar_accepts_iff _ 4 (by decide)).mpr ⟨4, by decide, by decide⟩
+
+/-- What a well-formed sequence decodes to is a Unicode scalar value (no surrogate, nothing
+above U+10FFFF) in its shortest form (no overlong encodings). -/
+theorem decode_scalar (s : List B) (h : WF s) : isScalar (decode s) ∧ encLen (decode s) = s.length :=
+  decode_WF s h
+
+example : isScalar (decode [0xEF#8, 0xBF#8, 0xBF#8]) ∧ encLen (decode [0xEF#8, 0xBF#8, 0xBF#8]) = 3 :=
+  decode_scalar _ (by decide)
+
+/-! ## neither reader looks at or beyond the end pointer
+
+The result is a function of the bytes at offsets `< avail` alone.  (`avail ≥ 1`: `p[0]` is read
+unconditionally.)  The harness checks the same thing physically: the source buffer is an
+exact-size heap block under AddressSanitizer. -/
+
+theorem validateSeq_frame (rd1 rd2 : Nat → B) (avail : Nat) (ha : 1 ≤ avail)
+    (h : ∀ i, i < avail → rd1 i = rd2 i) : validateSeq rd1 avail = validateSeq rd2 avail := by
+  unfold validateSeq
+  rw [h 0 (by omega)]
+  exact vsW_congr _ _ _ _ _ _ _ _ (fun a => h 1 (by omega)) (fun a => h 2 (by omega))
+    (fun a => h 3 (by omega))
+
+theorem getChar_frame (rd1 rd2 : Nat → B) (avail : Nat) (ha : 1 ≤ avail)
+    (h : ∀ i, i < avail → rd1 i = rd2 i) : getChar rd1 avail = getChar rd2 avail := by
+  unfold getChar
+  rw [h 0 (by omega)]
+  exact gcW_congr _ _ _ _ _ _ _ _ (fun a => h 1 (by omega)) (fun a => h 2 (by omega))
+    (fun a => h 3 (by omega))
+
+example : getChar (fun i => if i < 2 then 0xE2#8 else 0x82#8) 2
+    = getChar (fun i => if i < 2 then 0xE2#8 else 0xFF#8) 2 :=
+  getChar_frame _ _ 2 (by decide) (by
+    intro i hi
+    simp only [hi, ↓reduceIte])
+example : validateSeq (rdOf [0xE2#8, 0x82#8, 0xAC#8]) 2 = validateSeq (rdOf [0xE2#8, 0x82#8, 0x00#8]) 2 :=
+  validateSeq_frame _ _ 2 (by decide) (by
+    intro i hi
+    match i, hi with
+    | 0, _ => rfl
+    | 1, _ => rfl)
+
+/-! ## utf8_put_char, utf8_char_size -/
+
+/-- For a scalar value that fits, `utf8_put_char` succeeds, stores exactly
+`utf8_char_size` bytes, and these bytes are the well-formed sequence of that value. -/
+theorem putChar_scalar (room : Nat) (c : BitVec 32) (hs : isScalar c.toNat)
+    (hr : encLen c.toNat ≤ room) :
+    ∃ bytes, putChar room c = (true, encLen c.toNat, bytes) ∧ bytes.length = encLen c.toNat ∧
+      charSize c = BitVec.ofNat 32 bytes.length ∧ WF bytes ∧ decode bytes = c.toNat := by
+  unfold isScalar at hs
+  by_cases h1 : c.toNat < 0x80
+  · have e : encLen c.toNat = 1 := by unfold encLen; rw [if_pos h1]
+    rw [e] at hr ⊢
+    refine ⟨_, pc1 room c h1 hr, rfl, by rw [charSize_eq, e]; rfl, ?_, ?_⟩
+    · unfold WF wf1; u8nat; rw [lo8_self c (by omega)]; omega
+    · unfold decode cp1; exact lo8_self c (by omega)
+  · by_cases h2 : c.toNat < 0x800
+    · have e : encLen c.toNat = 2 := by unfold encLen; rw [if_neg h1, if_pos h2]
+      rw [e] at hr ⊢
+      have ok := enc2_ok c (by omega) h2
+      exact ⟨_, pc2 room c (by omega) h2 hr, rfl, by rw [charSize_eq, e]; rfl, ok.1, ok.2⟩
+    · by_cases h3 : c.toNat < 0x10000
+      · have e : encLen c.toNat = 3 := by unfold encLen; rw [if_neg h1, if_neg h2, if_pos h3]
+        rw [e] at hr ⊢
+        have hs' : c.toNat < 0xD800 ∨ 0xDFFF < c.toNat := by omega
+        have ok := enc3_ok c (by omega) h3 hs'
+        exact ⟨_, pc3 room c (by omega) h3 hs' hr, rfl, by rw [charSize_eq, e]; rfl, ok.1, ok.2⟩
+      · have e : encLen c.toNat = 4 := by unfold encLen; rw [if_neg h1, if_neg h2, if_neg h3]
+        rw [e] at hr ⊢
+        have ok := enc4_ok c (by omega) (by omega)
+        exact ⟨_, pc4 room c (by omega) (by omega) hr, rfl, by rw [charSize_eq, e]; rfl, ok.1, ok.2⟩
+
+example : ∃ bytes, putChar 3 0x20AC#32 = (true, 3, bytes) ∧ bytes.length = 3 ∧
+    charSize 0x20AC#32 = BitVec.ofNat 32 bytes.length ∧ WF bytes ∧ decode bytes = 0x20AC :=
+  putChar_scalar 3 0x20AC#32 (by decide) (by decide)
+
+/-- `utf8_put_char` followed by `utf8_get_char` is the identity on every Unicode scalar value:
+whenever the stored bytes are what the reader sees before its end pointer (more bytes may
+follow), it returns the value and advances by exactly the number of bytes stored. -/
+theorem put_get_roundtrip (room : Nat) (c : BitVec 32) (hs : isScalar c.toNat)
+    (hr : encLen c.toNat ≤ room) (rd : Nat → B) (avail : Nat)
+    (hav : (putChar room c).2.2.length ≤ avail)
+    (hrd : ∀ i, i < (putChar room c).2.2.length → rd i = (putChar room c).2.2.getD i 0#8) :
+    getChar rd avail = (c, (putChar room c).2.1) := by
+  obtain ⟨bytes, e, hl, _, hw, hd⟩ := putChar_scalar room c hs hr
+  rw [e] at hav hrd ⊢
+  simp only at hav hrd ⊢
+  have ew : window rd bytes.length = bytes := by
+    apply List.ext_getElem
+    · rw [window_length]
+    · intro i h1 h2
+      have := hrd i h2
+      simp only [window, List.getElem_map, List.getElem_range]
+      rw [this, List.getD_eq_getElem?_getD, List.getElem?_eq_getElem h2, Option.getD_some]
+  have := getChar_wellformed rd avail bytes.length hav (by rw [ew]; exact hw)
+  rw [ew, hd, BitVec.ofNat_toNat, BitVec.setWidth_eq, hl] at this
+  exact this
+
+/-- … in particular on the stored bytes themselves. -/
+theorem put_get_roundtrip_exact (room : Nat) (c : BitVec 32) (hs : isScalar c.toNat)
+    (hr : encLen c.toNat ≤ room) :
+    getCharL (putChar room c).2.2 = (c, (putChar room c).2.1) :=
+  put_get_roundtrip room c hs hr _ _ (Nat.le_refl _) (fun _ _ => rfl)
+
+example : getCharL (putChar 4 0x10FFFF#32).2.2 = (0x10FFFF#32, 4) :=
+  put_get_roundtrip_exact 4 0x10FFFF#32 (by decide) (by decide)
+example : getChar (rdOf ((putChar 2 0x7FF#32).2.2 ++ [0x41#8])) 3 = (0x7FF#32, 2) :=
+  put_get_roundtrip 2 0x7FF#32 (by decide) (by decide) _ 3 (by decide) (by
+    intro i hi
+    match i, hi with
+    | 0, _ => rfl
+    | 1, _ => rfl)
+
+/-- Nothing is stored and the destination pointer stays for surrogates and for values above
+U+10FFFF, whatever the room. -/
+theorem putChar_nothing_for_invalid (room : Nat) (c : BitVec 32) (h : ¬ isScalar c.toNat) :
+    (putChar room c).2 = (0, []) :=
+  pc_nonscalar room c h
+
+example : (putChar 4 0xD800#32).2 = (0, []) := putChar_nothing_for_invalid 4 _ (by decide)
+example : (putChar 4 0x110000#32).2 = (0, []) := putChar_nothing_for_invalid 4 _ (by decide)
+
+/-- The destination pointer advances by exactly the number of bytes stored, and no byte is
+stored at or beyond the end pointer (stores are consecutive from the old pointer, so "at most
+`room` of them" is "all below `dstend`"). -/
+theorem putChar_respects_room (room : Nat) (c : BitVec 32) :
+    (putChar room c).2.1 = (putChar room c).2.2.length ∧ (putChar room c).2.2.length ≤ room :=
+  pc_len room c
+
+example : (putChar 2 0x20AC#32).2.2.length ≤ 2 := (putChar_respects_room 2 _).2
+
+/-- `false` is returned exactly in the no-room cases — a value up to U+10FFFF whose
+`utf8_char_size` exceeds the room (surrogates are tested for room before they are skipped) —
+and nothing is stored then. -/
+theorem putChar_false_iff (room : Nat) (c : BitVec 32) :
+    ((putChar room c).1 = false ↔ c.toNat ≤ 0x10FFFF ∧ room < encLen c.toNat) ∧
+    ((putChar room c).1 = false → (putChar room c).2 = (0, [])) :=
+  ⟨pc_false_iff room c, pc_false_nothing room c⟩
+
+example : (putChar 2 0x20AC#32).1 = false := ((putChar_false_iff 2 _).1).mpr (by decide)
+example : (putChar 0 0x110000#32).1 ≠ false :=
+  fun h => absurd (((putChar_false_iff 0 _).1).mp h) (by decide)
+
+/-- `utf8_char_size` is the encoded length (1/2/3/4 by the thresholds 0x80, 0x800, 0x10000). -/
+theorem charSize_spec (c : BitVec 32) : charSize c = BitVec.ofNat 32 (encLen c.toNat) :=
+  charSize_eq c
+
+example : charSize 0xFFFF#32 = 3#32 := charSize_spec _
+
+/-! ## utf8_seq_size agrees with the validator on every lead byte -/
+
+/-- Whenever the validator accepts a sequence, its length is `utf8_seq_size` of the lead byte. -/
+theorem seqSize_agrees (rd : Nat → B) (avail : Nat) (h : validateSeq rd avail ≠ 0#32) :
+    seqSize (rd 0) = validateSeq rd avail :=
+  seqSize_of_accept _ _ _ _ _ h
+
+example : seqSize 0xE2#8 = 3#32 :=
+  seqSize_agrees (rdOf [0xE2#8, 0x82#8, 0xAC#8]) 3 (by decide)
+
+/-- Conversely every lead byte except NUL has a continuation on which the validator returns
+`utf8_seq_size` of it; so `utf8_seq_size b = 0` iff no sequence starting with `b` is valid. -/
+theorem seqSize_attained (b : B) (hb : b ≠ 0#8) :
+    (∃ rd avail, rd 0 = b ∧ validateSeq rd avail = seqSize b) ∧
+    (seqSize b = 0#32 ↔ ∀ rd avail, rd 0 = b → validateSeq rd avail = 0#32) := by
+  have w : validateSeq (leadWitness b) 4 = seqSize b := seqSize_witness b hb
+  refine ⟨⟨leadWitness b, 4, rfl, w⟩, ?_, ?_⟩
+  · intro h0 rd avail e
+    apply Classical.byContradiction
+    intro hne
+    have := seqSize_agrees rd avail hne
+    rw [e, h0] at this
+    exact hne this.symm
+  · intro h
+    rw [← w]
+    exact h _ 4 rfl
+
+example : seqSize 0xC1#8 = 0#32 ↔ ∀ rd avail, rd 0 = 0xC1#8 → validateSeq rd avail = 0#32 :=
+  (seqSize_attained 0xC1#8 (by decide)).2
+
+/-- The one documented difference: `utf8_seq_size 0 = 1`, the validator rejects NUL. -/
+theorem seqSize_nul (rd : Nat → B) (avail : Nat) (h : rd 0 = 0#8) :
+    seqSize (rd 0) = 1#32 ∧ validateSeq rd avail = 0#32 := by
+  rw [h]
+  refine ⟨by decide, ?_⟩
+  unfold validateSeq validateSeqW
+  rw [h]
+  simp only [show (0#8 < 0x80#8) from by decide, ↓reduceIte]
+
+example : seqSize ((rdOf [0x00#8]) 0) = 1#32 ∧ validateSeq (rdOf [0x00#8]) 1 = 0#32 :=
+  seqSize_nul _ 1 rfl
+
+/-! ## utf8_validate_string -/
+
+/-- `utf8_validate_string` accepts exactly the concatenations of well-formed sequences none of
+which is NUL. -/
+theorem validateString_spec (s : List B) : validateString s = true ↔ WFString s :=
+  validateString_iff s
+
+example : validateString [0x41#8, 0xE2#8, 0x82#8, 0xAC#8, 0xF0#8, 0x9F#8, 0x98#8, 0x80#8] = true :=
+  (validateString_spec _).mpr
+    ⟨[[0x41#8], [0xE2#8, 0x82#8, 0xAC#8], [0xF0#8, 0x9F#8, 0x98#8, 0x80#8]], rfl, by
+      intro c hc
+      simp only [List.mem_cons, List.not_mem_nil, or_false] at hc
+      rcases hc with rfl | rfl | rfl <;> decide⟩
+example : ¬ WFString [0x41#8, 0x00#8] :=
+  fun h => absurd ((validateString_spec _).mpr h) (by decide)
+
+end UsualProps.C11
